@@ -99,6 +99,13 @@ theorem there_and_back (e0 e1 α δ α1 δ1 : ℝ) (hα : |α| < 360) (hδ : |δ
   obtain ⟨α2, δ2, hok2, hdir2, _⟩ := precession_equatorial_rot e1 e0 α1 δ1 hra hδ1 h2'
   exact ⟨α2, δ2, hok2, by rw [hdir2, hd, b1, b2, b3, precessionRot_inverse]⟩
 
+/-- The hypotheses of `there_and_back` are satisfiable: a star at δ = 49° precessed over 50 years. -/
+example : ∃ α1 δ1, precession_equatorial 2451545 2469807.5 41 49 0 0 = .ok (α1, δ1) ∧
+    (¬ ((85 : ℝ) < 49) ∨ 0 ≤ (rotY (fk5Theta 2451545 2469807.5) (rotZ (fk5Zeta 2451545 2469807.5) (dir 41 49))).2.2) := by
+  obtain ⟨ra, dec, h, _⟩ := equatorial_is_rotation 2451545 2469807.5 41 49
+    (by rw [abs_lt]; constructor <;> norm_num) (by rw [abs_lt]; constructor <;> norm_num) (Or.inl (by norm_num))
+  exact ⟨ra, dec, h, Or.inl (by norm_num)⟩
+
 /-- There and back for every star south of +85° whose precessed declination is also ≤ 85°
     (the plain `asin`/`asin` case; includes the whole southern sky and its pole). -/
 theorem there_and_back_below_85 (e0 e1 α δ α1 δ1 : ℝ) (hα : |α| < 360) (hδ : |δ| < 360)
@@ -237,15 +244,25 @@ theorem proper_motion_total_invariant (μα μδ α δ β ε : ℝ)
   field_simp
   linear_combination ((rad μδ) ^ 2 + (rad μα * cos (rad δ)) ^ 2) * hAB
 
+/-- The hypothesis `hβ` of `proper_motion_total_invariant` is what `equatorial2ecliptical` returns as latitude. -/
+example (α δ ε : ℝ) (hδ : -90 < δ ∧ δ < 90) : ∃ lon β, equatorial2ecliptical α δ ε = .ok (lon, β) ∧
+    sin (rad β) = sin (rad δ) * cos (rad ε) - cos (rad δ) * sin (rad ε) * sin (rad α) := by
+  obtain ⟨lon, lat, h, hd, _, _⟩ := equatorial2ecliptical_spec α δ ε hδ
+  refine ⟨lon, lat, h, ?_⟩
+  have := congrArg (fun v : V3 => v.2.2) hd
+  simp only [dir, rotX] at this
+  rw [this]; ring
+
 /-- `mean_obliquity` at J2000.0 is 23°26'21.448". -/
 theorem mean_obliquity_j2000 : mean_obliquity 2451545 = 23 + 26 / 60 + 21.448 / 3600 := by
   unfold mean_obliquity
   have h0 : ((2451545 : ℝ) - 2451545.0) / 3652500.0 = 0 := by norm_num
   simp only [h0, zero_mul, a_of_sec_zero]
   unfold a_add
-  rw [add_zero, a_reduce_of_lt]
+  rw [add_zero, a_reduce_of_lt, a_reduce_of_lt]
   · norm_num
   · rw [abs_lt]; constructor <;> norm_num
+  · rw [a_reduce_of_lt] <;> rw [abs_lt] <;> constructor <;> norm_num
 
 /-- `motion_in_space`: the star moves uniformly on a straight line: the direction returned is that of
     `r u + t V`, `V = (v / 977792) u + r μδ north + r μα cos δ east` — the displacement is LINEAR in the elapsed
